@@ -325,8 +325,8 @@ Definition members_of (obs : list aobs) : list acct :=
 Record sstate := mkS {
   s_gens : list rid;              (* observed key generations, oldest first *)
   s_log : list cipher;            (* ciphertexts of accepted records *)
-  s_allow : amap;                 (* account -> generations that existed at a record boundary at which it held a permission, or at a content that admitted it *)
-  s_allow_inv : amap;             (* invite key -> generations that existed while the invite was live *)
+  s_allow : amap;                 (* account -> generations that existed at a record boundary at which it held a permission, or at a content through which it received a key *)
+  s_allow_inv : amap;             (* invite key -> generations that existed while the invite was live (record boundaries; contents that gave it a key) *)
   s_members : list acct;
   s_open : list (rid * N);
   s_invkeys : list N              (* every anyone-can-join invite key seen so far *)
@@ -359,31 +359,52 @@ Definition admits (c : content) : list acct :=
   | _ => []
   end.
 
-(* CONTENT boundaries inside one accepted record: an identity admitted by a content may know the generations that exist
-   at that content — the generations before the record, plus the record's own generation once a rotation content of
-   the record has been passed (a record carries at most one rotation).  Without this an accepted record that admits an
-   account and removes it again would be judged at its END only, where the account holds nothing, although the
-   property lets it keep what was delivered while it was a member ([spec_C05_legacy], c05_model_satisfies_spec_legacy_refuted). *)
-Fixpoint admit_allow (gens_before gens_after : list rid) (rotated : bool) (cs : list kcontent) (m : amap) : amap :=
+(* identities that hold a key of the generation that is current AT a content: the identities the content admits and,
+   for a rotation, the AccountKeys recipients it names (minus the accounts the same content removes) — a recipient may
+   lose its permission through a LATER content of the same record and keeps what it was given while it held one *)
+Definition key_receivers (c : content) : list acct :=
+  match is_rot c with
+  | Some (rk, removed) => filter (fun a => negb (memN a removed)) (rk_accounts rk)
+  | None => admits c
+  end.
+(* invite keys a content delivers a key to: a new anyone-can-join invite, the InviteKeys recipients of a rotation (the
+   invite may be revoked by a LATER content of the same record) *)
+Definition inv_receivers (c : content) : list N :=
+  match c with
+  | CInvite key ty _ _ => if ty =? tAnyoneCanJoin then [key] else []
+  | _ => match is_rot c with Some (rk, _) => rk_invites rk | None => [] end
+  end.
+
+(* CONTENT boundaries inside one accepted record: a principal that receives a key through a content ([recv]) may know
+   the generations that exist at that content — the generations before the record, plus the record's own generation
+   once a rotation content of the record has been passed (a record carries at most one rotation).  Without this an
+   accepted record that admits an account and removes it again would be judged at its END only, where the account holds
+   nothing, although the property lets it keep what was delivered while it was a member ([spec_C05_legacy],
+   c05_model_satisfies_spec_legacy_refuted); the same for a rotation recipient (account or open invite) that a later
+   content of the same record drops ([spec_C05_v2], c05_model_satisfies_spec_v2_refuted). *)
+Fixpoint admit_allow (recv : content -> list N) (gens_before gens_after : list rid) (rotated : bool)
+         (cs : list kcontent) (m : amap) : amap :=
   match cs with
   | [] => m
   | ck :: rest =>
       let rotated' := rotated || match is_rot (fst ck) with Some _ => true | None => false end in
       let g := if rotated' then gens_after else gens_before in
-      admit_allow gens_before gens_after rotated' rest (fold_left (fun m a => add_allow a g m) (admits (fst ck)) m)
+      admit_allow recv gens_before gens_after rotated' rest (fold_left (fun m a => add_allow a g m) (recv (fst ck)) m)
   end.
 
-(* [content_level = false] is the predicate as it was first written (record boundaries only) *)
-Definition spec_step_gen (content_level : bool) (ss : sstate) (st : step) : bool * sstate :=
+(* [content_level = false] is the predicate as it was first written (record boundaries only); [recv] / [recv_inv]:
+   which accounts / invite keys a content delivers a key to *)
+Definition spec_step_gen (content_level : bool) (recv recv_inv : content -> list N) (ss : sstate) (st : step) : bool * sstate :=
   if negb (st_ok st) then (true, ss)
   else
     let gens := if memN (st_cur st) (s_gens ss) then s_gens ss else s_gens ss ++ [st_cur st] in
     let log := s_log ss ++ flat_map (fun ck => ciphers_of (st_id st) (fst ck) (snd ck)) (st_cs st) in
     let members := members_of (st_obs st) in
     let allow0 := fold_left (fun m a => add_allow a gens m) members (s_allow ss) in
-    let allow := if content_level then admit_allow (s_gens ss) gens false (st_cs st) allow0 else allow0 in
+    let allow := if content_level then admit_allow recv (s_gens ss) gens false (st_cs st) allow0 else allow0 in
     let invkeys := dedup (s_invkeys ss ++ map snd (st_open st)) in
-    let allow_inv := fold_left (fun m k => add_allow k gens m) (map snd (st_open st)) (s_allow_inv ss) in
+    let allow_inv0 := fold_left (fun m k => add_allow k gens m) (map snd (st_open st)) (s_allow_inv ss) in
+    let allow_inv := if content_level then admit_allow recv_inv (s_gens ss) gens false (st_cs st) allow_inv0 else allow_inv0 in
     let ok :=
       forallb (acct_ok gens log allow) (st_obs st) &&
       forallb (fun k => subsetN (derives (PI k) log) (aget k allow_inv)) invkeys &&
@@ -392,20 +413,25 @@ Definition spec_step_gen (content_level : bool) (ss : sstate) (st : step) : bool
       rot_exact (s_members ss) (s_open ss) [] (st_cs st) in
     (ok, mkS gens log allow allow_inv members (st_open st) invkeys).
 
-Fixpoint spec_steps_gen (content_level : bool) (ss : sstate) (steps : list step) : bool :=
+Fixpoint spec_steps_gen (content_level : bool) (recv recv_inv : content -> list N) (ss : sstate) (steps : list step) : bool :=
   match steps with
   | [] => true
-  | st :: rest => let '(ok, ss1) := spec_step_gen content_level ss st in ok && spec_steps_gen content_level ss1 rest
+  | st :: rest => let '(ok, ss1) := spec_step_gen content_level recv recv_inv ss st in
+                  ok && spec_steps_gen content_level recv recv_inv ss1 rest
   end.
 
 Definition sinit (owner : acct) (root : rid) : sstate :=
   mkS [root] [CAsym (PA owner) root] [(owner, [root])] [] [owner] [] [].
 
-Definition spec_step := spec_step_gen true.
-Definition spec_steps := spec_steps_gen true.
+Definition spec_step := spec_step_gen true key_receivers inv_receivers.
+Definition spec_steps := spec_steps_gen true key_receivers inv_receivers.
 Definition spec_C05 (owner : acct) (root : rid) (steps : list step) : bool := spec_steps (sinit owner root) steps.
+(* first version: record boundaries only *)
 Definition spec_C05_legacy (owner : acct) (root : rid) (steps : list step) : bool :=
-  spec_steps_gen false (sinit owner root) steps.
+  spec_steps_gen false admits (fun _ => []) (sinit owner root) steps.
+(* second version: content boundaries for admitted identities only (not for rotation recipients, not for invite keys) *)
+Definition spec_C05_v2 (owner : acct) (root : rid) (steps : list step) : bool :=
+  spec_steps_gen true admits (fun _ => []) (sinit owner root) steps.
 
 (* ------------------------------------------------------------------------------------------ encrypted tree content *)
 (* changebuilder.go Build / objecttree.go prepareBuilderContent + IterateRoot, symbolically.  The per-tree key is
